@@ -77,7 +77,11 @@ func (reloader *Reloader) initiateDownstreamReload() (CompleteReloadingFunc, err
 // returns a GathererFunc which always gathers from the latest metric factories, if they've been recreated by reloading.
 func (reloader *Reloader) GetMetricGatherer() prometheus.Gatherer {
 	return prometheus.GathererFunc(func() ([]*dto.MetricFamily, error) {
-		return reloader.Loader.GetMetricGatherer().Gather()
+		// a reload replaces the loader and its metric factories under this lock
+		reloader.reloadingLock.Lock()
+		gatherer := reloader.Loader.GetMetricGatherer()
+		reloader.reloadingLock.Unlock()
+		return gatherer.Gather()
 	})
 }
 
